@@ -247,6 +247,45 @@ RULES['CCCbreakFirst'] = {
             'single bond to c1 C? labeled c3 single bond to c2 } break bond '
             '(c1, c2) increase number of radical (c1) increase number of '
             'radical (c2) }'}
+
+
+def _any_order(frm, to):
+    # wildcard atoms: any bond between heavy atoms.  The bonds to hydrogen
+    # match as well, but a hydrogen with a double bond exceeds its valence, so
+    # those products never pass the filter.
+    def rule(atoms, bonds):
+        out = []
+        for (i, j), o in bonds.items():
+            if o == frm:
+                b = dict(bonds)
+                b[(i, j)] = to
+                out.append([(list(atoms), b)])
+        return out
+    return rule
+
+
+def _any_break(atoms, bonds):
+    # wildcard scission: every single bond, those to hydrogen included
+    out = []
+    for (i, j), o in bonds.items():
+        if o == 1:
+            b = dict(bonds)
+            del b[(i, j)]
+            out.append(components(list(atoms), b))
+    for i, at in enumerate(atoms):
+        if at[1] > 0:
+            a = list(atoms)
+            a[i] = (at[0], at[1] - 1) + tuple(at[2:])
+            out.append([(a, dict(bonds)), ([], {})])
+    return out
+
+
+RULES['ANYup'] = {'smarts': '[*:1]-[*:2]>>[*:1]=[*:2]',
+                  'fn': _any_order(1, 2), 'ring': None}
+RULES['ANYdown'] = {'smarts': '[*:1]=[*:2]>>[*:1]-[*:2]',
+                    'fn': _any_order(2, 1), 'ring': None}
+RULES['ANYbreak'] = {'smarts': '[*:1]-[*:2]>>[*:1].[*:2]',
+                     'fn': _any_break, 'ring': None}
 RULE_NAMES = sorted(RULES)
 
 
